@@ -16,6 +16,7 @@ pub assume_specification [u32::overflowing_sub](a: u32, b: u32) -> (r: (u32, boo
     ensures r.0 == a.wrapping_sub(b);
 pub assume_specification [u32::overflowing_add](a: u32, b: u32) -> (r: (u32, bool))
     ensures r.0 == a.wrapping_add(b);
+pub assume_specification [u32::abs_diff](a: u32, b: u32) -> (r: u32) ensures r == (if a >= b { a - b } else { b - a });
 
 /// PROTOCOL-TYPED counters (DESIGN §3.5 A-step): S-model values, but each counter only offers the transitions the lock-free protocol allows a
 /// thread to make; any other write (`store`, `swap`, `fetch_sub`, a compare-exchange by another delta) is a failed obligation -- such an edit
@@ -209,7 +210,7 @@ FNS += [
     # (sequentially), for every counter value incl. enqueuer_tail == 0 (wrapped) and every lap
     fn("try_unleak_slot_index_internal", props=["C08", "C15", "C16"],
        sig="pub fn try_unleak_slot_index_internal(&mut self, slot_index: u32) -> (r: bool)", sig_anchor=r"pub fn try_unleak_slot_index_internal\(&'a self, slot_index: u32\) -> bool",
-       rules=[Rule("R8-break-value", r"\bbreak (true|false)\b", r"return \1", count=2, note="`break v` of the tail loop -> `return v`")],
+       rules=[Rule("R8-break-value", r"\bbreak (true|false)\b", r"return \1", min=2, note="`break v` of the tail loop -> `return v` (any number of exits)")],
        hints=[(r"let mut slot_id = slot_index;", "proof { lemma_lap(self.enqueuer_tail@.wrapping_sub(1) as int, BUFFER_SIZE as int, slot_index as int); }"),
               (r"> slot_id / BUFFER_SIZE as u32 \{", "proof { lemma_lap(self.enqueuer_tail@.wrapping_sub(1) as int, BUFFER_SIZE as int, slot_index as int); }"),
               (r"else \{(?=\s*return false)", "proof { lemma_lap(slot_id as int, BUFFER_SIZE as int, slot_index as int); lemma_lap(self.enqueuer_tail@.wrapping_sub(1) as int, BUFFER_SIZE as int, slot_index as int); assert(self.enqueuer_tail@.wrapping_sub(1).wrapping_add(1) == self.enqueuer_tail@); }")],
